@@ -18,9 +18,10 @@ def fullMatch (r : Re) (s : Str) : Bool :=
   | some (_, []) => true
   | _ => false
 
-/-- name part of a transform header: empty, or `[a-z][a-zA-Z0-9_]*` (the regex without its dashes) -/
+/-- name part of a transform header: empty, or `[a-z][a-zA-Z0-9_]*` (the regex without its dashes;
+the name itself does not begin with a dash: `splitLevel` strips them all) -/
 def transformHeaderNameOK (n : Str) : Bool :=
-  n.isEmpty || fullMatch Gen.segmentIdentifierNamedRe ('-' :: n)
+  n.isEmpty || (n.head? != some '-' && fullMatch Gen.segmentIdentifierNamedRe ('-' :: n))
 
 /-- name part of a resource header: `[a-zA-Z0-9_]*` -/
 def resourceHeaderNameOK (n : Str) : Bool :=
@@ -121,6 +122,7 @@ def rtqCaptured (tbl : EscTable) : List Seg → Bool
 def wfTop (tbl : EscTable) : Query → Bool
   | .mk [.resource none names, t] a =>
     wfSeg (.resource none names) && wfSeg t && (match t with | .transform (some _) _ _ => true | _ => false)
+    && adjacencyOK [t.kind]      -- a bare header with an empty body cannot be last
     && (match a with | _ => true)
   | .mk segs a => wfInner (.mk segs a) && !rtqCaptured tbl segs
 
